@@ -25,38 +25,13 @@ Open Scope R_scope.
    time (call by value) and discharges each clamp with the hypothesis on the scale. *)
 Ltac sem16_in t :=
   eval cbv -[Rplus Rminus Rmult Rdiv Rinv Ropp IZR sqrt sin cos atan2 atan asin exp ln Rabs PI
-        Rleb Rltb Reqb Rle_dec Rlt_dec Req_EM_T] in t.
+        Rleb Rltb Reqb Rle_dec Rlt_dec Req_EM_T Rrint Int_part up] in t.
 
 Lemma py_max_left h mn (x y : R) : y <= x ->
   py_max (ROps h mn) (VFloat (ROps h mn) x) (VFloat (ROps h mn) y) = VFloat (ROps h mn) x.
 Proof. intros H. unfold py_max. simpl. rewrite Rltb_false by exact H. reflexivity. Qed.
 
 Ltac pure t := lazymatch t with context [@py_max] => fail | _ => idtac end.
-Ltac clamp_side := first [ lra | repeat rewrite Rmult_1_r; apply clamp_pv; lra ].
-Ltac step :=
-  match goal with
-  | |- context [@py_max ?O ?a ?b] =>
-      pure a; pure b;
-      let a' := sem16_in a in let b' := sem16_in b in
-      change (@py_max O a b) with (@py_max O a' b');
-      rewrite py_max_left by clamp_side
-  | |- context C [@vbind ?O ?v ?k] =>
-      pure v;
-      let v' := sem16_in v in
-      lazymatch v' with
-      | VErr _ _ => fail 2 "a statement raises" v'
-      | _ => idtac
-      end;
-      let r := eval cbv beta in (k v') in
-      let g := context C [r] in
-      change g
-  end.
-Ltac final :=
-  match goal with
-  | |- is_qty ?h ?mn ?r ?p ?s ?d ?t =>
-      pure r; let r' := sem16_in r in change (is_qty h mn r' p s d t)
-  end.
-Ltac run := repeat step.
 (* params[self._prefix + 'scale'] with a symbolic prefix *)
 Lemma vindex_pref (O : Fops) p k (l : list (string * val O)) :
   vindex O (VDict O (pref p l)) (VStr O (p ++ k)) = vindex O (VDict O l) (VStr O k).
@@ -83,6 +58,31 @@ Ltac align_sqrt :=
      | _ => first [ replace a with (2 * PI) by (field; lra) | replace a with (2 * ln 2) by (field; lra) ]
      end
   end.
+Ltac clamp_side := first [ lra | one_r; align_sqrt; apply clamp_pv; lra ].
+Ltac step :=
+  match goal with
+  | |- context [@py_max ?O ?a ?b] =>
+      pure a; pure b;
+      let a' := sem16_in a in let b' := sem16_in b in
+      change (@py_max O a b) with (@py_max O a' b');
+      rewrite py_max_left by clamp_side
+  | |- context C [@vbind ?O ?v ?k] =>
+      pure v;
+      let v' := sem16_in v in
+      lazymatch v' with
+      | VErr _ _ => fail 2 "a statement raises" v'
+      | _ => idtac
+      end;
+      let r := eval cbv beta in (k v') in
+      let g := context C [r] in
+      change g
+  end.
+Ltac final :=
+  match goal with
+  | |- is_qty ?h ?mn ?r ?p ?s ?d ?t =>
+      pure r; let r' := sem16_in r in change (is_qty h mn r' p s d t)
+  end.
+Ltac run := repeat step.
 Ltac align_exp :=
   match goal with
   | |- ?L = ?R =>
